@@ -214,6 +214,10 @@ register(
         ("hist_parallel_sync", 1, gen_core("sync", 14, hist_parallel=True, p_parallel=0.35, w_target={"history": 6}, **{k: v for k, v in _C01_COMMON.items() if k != "p_parallel"})),
         ("root_target_sync", 1, gen_core("sync", 15, w_target={"root": 2}, **_C01_COMMON)),
         ("timers_services_async", 2, gen_core("async", 16, ops_kw={"p_adv": 0.3}, p_after=0.3, p_invoke=0.25, svc_kinds=("sync", "coro"), **_C01_COMMON)),
+        # sync engine: services that fail (often without onError) on compound states entered through a descendant target,
+        # observed by subscribers and on_transition hooks while the entry is still under way
+        ("timers_services_sync", 2, gen_core("sync", 17, ops_kw={"p_adv": 0.3}, p_after=0.25, p_invoke=0.4, svc_kinds=("sync",),
+                                            **dict(_C01_COMMON, w_target={"descendant": 4, "any": 5, "sibling": 3, "history": 2}))),
         ("async_interleave", 2, gen_c01_async_interleave),
     ],
     oracle=O.oracle_c01,
@@ -683,6 +687,7 @@ def gen_c07_contain(engine, services=False):
             sc["post_stop"] = 100 * MS
         sc["hostile_subscriber"] = True
         sc["hostile_listener"] = True
+        sc["plugin_via_property"] = rng.random() < 0.5
         sc["fault_pairs"] = [[rng.randint(1, 30), rng.randint(31, 60)] for _ in range(3)]
         return sc
     return g
@@ -814,7 +819,7 @@ register(
 # ===========================================================================
 from . import c12 as C12  # noqa: E402
 
-_C12 = dict(p_falsy_output=0.35, p_history=0.3, p_parallel=0.25, p_final=0.12, p_always=0.08, p_raise=0.08, p_assign=0.3, n_states=(4, 11),
+_C12 = dict(p_list_ctx=0.25, p_falsy_output=0.35, p_history=0.3, p_parallel=0.25, p_final=0.12, p_always=0.08, p_raise=0.08, p_assign=0.3, n_states=(4, 11),
             w_target={"history": 4}, p_on_done=0.6)
 
 
@@ -871,6 +876,7 @@ register(
     "C13",
     families=[("cycles_sync", 1, C13.gen_c13("sync")), ("cycles_async", 1, C13.gen_c13("async"))],
     oracle=C13.oracle_c13,
+    judges_aborted_runs=True,
     stats=C13.stats_c13,
     shrink_machine=False,
     level="exploration",
